@@ -155,15 +155,17 @@ func SignKey(method string, input []byte) string {
 	return K(NM, []byte(node_manager.CONSENSUS_SIGNS), h[:])
 }
 
-func KeyPeerApply(pubHex string) string  { return K(NM, []byte(node_manager.PEER_APPLY), Hex(pubHex)) }
-func KeyPeerIndex(pubHex string) string  { return K(NM, []byte(node_manager.PEER_INDEX), Hex(pubHex)) }
-func KeyBlack(pubHex string) string      { return K(NM, []byte(node_manager.BLACK_LIST), Hex(pubHex)) }
-func KeyCandidateIndex() string          { return K(NM, []byte(node_manager.CANDIDITE_INDEX)) }
-func KeyGovView() string                 { return K(NM, []byte(node_manager.GOVERNANCE_VIEW)) }
-func KeyPeerPool(view uint32) string     { return K(NM, []byte(node_manager.PEER_POOL), U32(view)) }
-func IsPeerPoolKey(k string) bool        { return strings.HasPrefix(k, K(NM, []byte(node_manager.PEER_POOL))) }
-func KeySideChain(id uint64) string      { return K(SCM, []byte(side_chain_manager.SIDE_CHAIN), U64(id)) }
-func KeySideChainApply(id uint64) string { return K(SCM, []byte(side_chain_manager.SIDE_CHAIN_APPLY), U64(id)) }
+func KeyPeerApply(pubHex string) string { return K(NM, []byte(node_manager.PEER_APPLY), Hex(pubHex)) }
+func KeyPeerIndex(pubHex string) string { return K(NM, []byte(node_manager.PEER_INDEX), Hex(pubHex)) }
+func KeyBlack(pubHex string) string     { return K(NM, []byte(node_manager.BLACK_LIST), Hex(pubHex)) }
+func KeyCandidateIndex() string         { return K(NM, []byte(node_manager.CANDIDITE_INDEX)) }
+func KeyGovView() string                { return K(NM, []byte(node_manager.GOVERNANCE_VIEW)) }
+func KeyPeerPool(view uint32) string    { return K(NM, []byte(node_manager.PEER_POOL), U32(view)) }
+func IsPeerPoolKey(k string) bool       { return strings.HasPrefix(k, K(NM, []byte(node_manager.PEER_POOL))) }
+func KeySideChain(id uint64) string     { return K(SCM, []byte(side_chain_manager.SIDE_CHAIN), U64(id)) }
+func KeySideChainApply(id uint64) string {
+	return K(SCM, []byte(side_chain_manager.SIDE_CHAIN_APPLY), U64(id))
+}
 func KeySideChainUpdate(id uint64) string {
 	return K(SCM, []byte(side_chain_manager.UPDATE_SIDE_CHAIN_REQUEST), U64(id))
 }
@@ -172,10 +174,16 @@ func KeySideChainQuit(id uint64) string {
 }
 func KeyRelayer(a common.Address) string { return K(RM, []byte(relayer_manager.RELAYER), a[:]) }
 func KeyRelayerApply(id uint64) string   { return K(RM, []byte(relayer_manager.RELAYER_APPLY), U64(id)) }
-func KeyRelayerRemove(id uint64) string  { return K(RM, []byte(relayer_manager.RELAYER_REMOVE), U64(id)) }
-func KeySV() string                      { return K(SVM, []byte(neo3_state_manager.STATE_VALIDATOR)) }
-func KeySVApply(id uint64) string        { return K(SVM, []byte(neo3_state_manager.STATE_VALIDATOR_APPLY), U64(id)) }
-func KeySVRemove(id uint64) string       { return K(SVM, []byte(neo3_state_manager.STATE_VALIDATOR_REMOVE), U64(id)) }
+func KeyRelayerRemove(id uint64) string {
+	return K(RM, []byte(relayer_manager.RELAYER_REMOVE), U64(id))
+}
+func KeySV() string { return K(SVM, []byte(neo3_state_manager.STATE_VALIDATOR)) }
+func KeySVApply(id uint64) string {
+	return K(SVM, []byte(neo3_state_manager.STATE_VALIDATOR_APPLY), U64(id))
+}
+func KeySVRemove(id uint64) string {
+	return K(SVM, []byte(neo3_state_manager.STATE_VALIDATOR_REMOVE), U64(id))
+}
 
 // ---------------------------------------------------------------------------------------------
 // observations (decoding stored records with the repository's own decoders; used to cross-check the
